@@ -161,7 +161,7 @@ def corner_case(r, cid, source, chain, term, nt, cs, n, design, trail=True):
         term = "red:" + ("min" if ty != "val" else r.choice(["add", "min", "xor"]))
     elif term == "ci":
         term = "ci:%s:%s" % ("vsfgw"[cid % 5], "7/8/9")
-    elif term.startswith("ci:"):
+    elif term.startswith("ci:") or term.startswith("red:") or term.startswith("fold:"):
         pass
     elif term in ("minkey", "maxkey"):
         term = term + ":3"
@@ -213,6 +213,12 @@ def gen_cases(tier, seed, shapes=None, per_shape=None):
                 for n_ in [5, 60, 130]:
                     cases.append(corner_case(r, cid, src, ch, "ci:%s:1/2/3/4/5/6/7/8/9" % tg, 4, ("C", 3), n_, "alt"))
                     cid += 1
+        # sequential reduce / fold with operators that are neither associative nor commutative: the
+        # value is the left fold over the sequential output, whatever the chain does in between
+        if item_type(src, ch) == "val" and src not in gen_harness.PRE_SOURCES:
+            for term in ["red:poly", "red:sub", "fold:3:poly"]:
+                cases.append(corner_case(r, cid, src, ch, term, 1, ("C", [1, 2, 5][cid % 3]), 24, "alt"))
+                cid += 1
         # by-key extrema with certain ties, sequentially and in parallel (ascending input, key = value mod 3)
         if src in ("vec", "slice", "iterx") and len(ch) <= 1 and "X" not in ch:
             for term in ["maxkey", "minkey"]:
